@@ -57,8 +57,10 @@ fn main() {
         .filter_map(|a| a.split_once('=').map(|(k, v)| (k.to_string(), v.to_string())))
         .collect();
 
+    suites::CURRENT_FILE.with(|f| *f.borrow_mut() = Some(format!("{out}.cur")));
     let mut tr = trace::Trace::new();
     let stats = suites::run(suite, seed, count, &kv, &mut tr);
+    let _ = std::fs::remove_file(format!("{out}.cur"));
     std::fs::write(out, &tr.buf).expect("write trace");
     println!("suite={suite} seed={seed} cases={} lines={} {stats}", tr.cases, tr.lines);
 }
